@@ -164,6 +164,26 @@ func famC13(g *Gen, o *Out, n int, thorough bool) {
 				}
 			}
 		}
+		// the index-codec probe (CARv2 with an index): the varint at the index offset in every shape a
+		// varint reader can disagree about — non-minimal, 9 and 10 bytes, cut, an unknown codec
+		if ver == 2 && len(arch) > 51 {
+			ioff := int(leU64(arch[43:51]))
+			if ioff > 0 && ioff+2 <= len(arch) {
+				for _, enc := range [][]byte{
+					{0x81, 0x88, 0x00},       // 0x0401 with a padding byte: not minimal
+					{0x80, 0x88, 0x80, 0x00}, // 0x0400, not minimal
+					{0x80, 0x80, 0x80, 0x80, 0x80, 0x80, 0x80, 0x80, 0x80, 0x01}, // 10 bytes: 2^63
+					{0xff, 0xff, 0xff, 0xff, 0xff, 0xff, 0xff, 0xff, 0x7f},       // 9 bytes: 2^63-1
+					{0x80}, {0x81, 0x88}, {0x05}, {0x82, 0x08}, {},
+				} {
+					m := append(append([]byte{}, arch[:ioff]...), enc...)
+					if len(enc) > 2 {
+						m = append(m, arch[ioff+2:]...)
+					}
+					emit(m, "index-codec-varint")
+				}
+			}
+		}
 		// a payload with trailing null padding, and (v2) a cut exactly at the payload end
 		if ver == 1 {
 			emit(append(append([]byte{}, arch...), make([]byte, 1+g.pick(4))...), "nullpad")
